@@ -71,13 +71,22 @@ def rules(t):
     out.append(r)
     r = RuleResult("C10.d", "id lookups compare the stored client id with the requested id", floor=3)
     for name in ("find_client_mut_by_id", "find_client_by_id", "find_client_slot_by_id"):
-        fs = [f for f in t.fns(r"renetcode::server::" + name + r"::\{closure")]
-        for f in fs:
-            r.site(Site(f, 0, 0, f.blocks[0]["term"]), name)
-            cm = [br["cond"] for br in t.branches(f) if br["kind"] == "bool" and br["cond"][0] == "cmp" and "client_id" in fmt(br["raw"])]
-            ret = t.norm_cond(f.origin_of_local(0))
-            if ret[0] == "cmp" and "client_id" in fmt(f.origin_of_local(0)): cm.append(ret)
-            if not cm or cm[0][1] not in ("Eq", "Ne"): r.bad(f"{name}|cmp", None, f"{name} does not compare client_id for equality")
+        top = t.fn("renetcode::server::" + name)
+        r.site(Site(top, 0, 0, top.blocks[0]["term"]), name)
+        cm = []
+        def scan(f):
+            out_ = [br["cond"] for br in t.branches(f) if br["kind"] == "bool" and br["cond"][0] == "cmp" and "client_id" in fmt(br["raw"])]
+            c0 = strip(f.origin_of_local(0))
+            while isinstance(c0, tuple) and c0[0] == "un" and c0[1] == "Not": c0 = c0[2]
+            ret = t.norm_cond(c0)
+            if ret[0] == "cmp" and "client_id" in fmt(c0): out_.append(ret)
+            return out_
+        # the helper itself, the closures it creates, and the closures those create (`position(|slot| slot.as_ref().is_some_and(|c| c.client_id == id))`)
+        fs = [g for g in t.fns() if g.path == top.path or g.path.startswith(top.path + "::{closure")]
+        for g in fs: cm += scan(g)
+        delegates = [c for g in fs for c in t.calls(r"renetcode::server::find_client(_mut|_slot)?_by_id$", g)]
+        if delegates and not cm: continue          # defined through another id lookup, which is checked on its own
+        if not cm or any(c_[1] not in ("Eq", "Ne") for c_ in cm): r.bad(f"{name}|cmp", None, f"{name} does not compare client_id for equality")
     out.append(r)
     r = RuleResult("C10.e", "slots are written only at the fill and the clears", floor=1)
     known = {(x.fn.path, x.bb, x.idx) for x in fills + clears}
